@@ -24,7 +24,8 @@ EXPLANATION = (
     'that applies a reused subtree re-registers every nested output. '
     'Decides preconditions of a hit; which re-executions are justified for '
     'arbitrary programs, the hash memo over a history and the CreatedFiles '
-    'counting invariant are not decided.')
+    'counting invariant are not decided.'
+    ' R5.7: functions receive deep copies of the recorded arguments, so a callee editing an argument in place cannot change the recorded identity (R11.1).')
 
 
 def r5_1(ctx, rc):
